@@ -134,6 +134,12 @@ func init() {
 		"NondetSources": func(e *Engine, st *State, fn *ssa.Function, a []Value, ins ssa.Instruction) []*State {
 			return e.ret(st, e.c64(len(st.nondetLog)))
 		},
+		"ExactCRC": func(e *Engine, st *State, fn *ssa.Function, a []Value, ins ssa.Instruction) []*State {
+			if t, ok := a[0].(*Term); ok {
+				e.crcExactMode = t == e.tt.True
+			}
+			return e.ret(st, Tuple{})
+		},
 		"Known": func(e *Engine, st *State, fn *ssa.Function, a []Value, ins ssa.Instruction) []*State {
 			id := e.mustStr(st, a[0])
 			return e.ret(st, e.tt.Bool(e.opts.Known[id]))
@@ -740,9 +746,24 @@ func (e *Engine) crcModel(st *State, name string, seed *Term, data Slice, real f
 		}
 		return e.tt.Const(32, uint64(real(uint32(seed.Val), raw)))
 	}
-	// affine shortcut: all bytes ite(flag, c1, c0) handled elsewhere (crcAffine)
-	if v, ok := e.crcAffine(name, seed, bs, data.Len, real); ok {
-		return v
+	// exact GF(2)-linear evaluation unless there are very many symbolic bytes
+	nsym := 0
+	for _, b := range bs {
+		if !b.IsConst() {
+			nsym++
+		}
+	}
+	var ctab *crcTab
+	switch name {
+	case "ieee":
+		ctab = crcIEEE
+	case "castagnoli":
+		ctab = crcCastagnoli
+	}
+	if ctab != nil && e.crcExactMode && nsym <= e.crcExactLimit() && (data.Len.IsConst() || n <= 256) {
+		e.Models["crc32("+name+") evaluated exactly (GF(2)-linear update with the real table)"] = true
+		h := e.crcExact(ctab, e.tt.Not(seed), bs, data.Len)
+		return e.tt.Not(h)
 	}
 	e.Models["crc32("+name+") as congruent uninterpreted function over symbolic bytes"] = true
 	h := seed
@@ -772,7 +793,60 @@ func (e *Engine) crcModel(st *State, name string, seed *Term, data Slice, real f
 var _ = strconv.Itoa
 var _ = os.Getenv
 
-// crcAffine: exact evaluation for bytes of the form ite(flag, c1, c0) (see crc_affine.go)
-func (e *Engine) crcAffine(name string, seed *Term, bs []*Term, ln *Term, real func(seed uint32, b []byte) uint32) (Value, bool) {
-	return nil, false
+func (e *Engine) crcExactLimit() int { return 1200 }
+
+type reflVal struct{ v Iface }
+
+func init() {
+	intrinsics["reflect.ValueOf"] = func(e *Engine, st *State, fn *ssa.Function, a []Value, ins ssa.Instruction) []*State {
+		ifc, _ := a[0].(Iface)
+		e.Models["reflect.ValueOf/Len/Swapper on slices"] = true
+		return e.ret(st, Opaque{Kind: "reflect.Value", V: &reflVal{ifc}})
+	}
+	intrinsics["(reflect.Value).Len"] = func(e *Engine, st *State, fn *ssa.Function, a []Value, ins ssa.Instruction) []*State {
+		op, _ := a[0].(Opaque)
+		rv, _ := op.V.(*reflVal)
+		if rv == nil {
+			return e.ret(st, Poison{"reflect.Value.Len"})
+		}
+		switch x := rv.v.Val.(type) {
+		case Slice:
+			if x.Obj == nil {
+				return e.ret(st, e.c64(0))
+			}
+			return e.ret(st, x.Len)
+		case Str:
+			return e.ret(st, e.strLen(x))
+		case *Agg:
+			return e.ret(st, e.c64(len(x.Elems)))
+		}
+		return e.ret(st, Poison{"reflect.Value.Len of " + describe(rv.v.Val)})
+	}
+	intrinsics["reflect.Swapper"] = func(e *Engine, st *State, fn *ssa.Function, a []Value, ins ssa.Instruction) []*State {
+		ifc, _ := a[0].(Iface)
+		s, ok := ifc.Val.(Slice)
+		if !ok {
+			return e.ret(st, Poison{"reflect.Swapper of " + describe(ifc.Val)})
+		}
+		return e.ret(st, &Closure{Builtin: "reflect.swapper", Bindings: []Value{s}})
+	}
+}
+
+func init() {
+	intrinsics["(*strings.Builder).copyCheck"] = nop
+	intrinsics["internal/bytealg.MakeNoZero"] = func(e *Engine, st *State, fn *ssa.Function, a []Value, ins ssa.Instruction) []*State {
+		n, ok := a[0].(*Term)
+		if !ok {
+			return e.ret(st, Poison{"MakeNoZero"})
+		}
+		v, ok := e.makeSliceVal(st, types.Typ[types.Uint8], n, n, ins)
+		if !ok {
+			return nil
+		}
+		return e.ret(st, v)
+	}
+	intrinsics["internal/abi.NoEscape"] = func(e *Engine, st *State, fn *ssa.Function, a []Value, ins ssa.Instruction) []*State {
+		return e.ret(st, a[0])
+	}
+	intrinsics["internal/abi.Escape"] = intrinsics["internal/abi.NoEscape"]
 }
